@@ -407,7 +407,7 @@ func c12MagClass(k c12Key) string {
 func (rn *c12Runner) execute(rd *c12Rendering) (rej int, why string, escaped map[string]interface{}) {
 	if !rd.cbe {
 		r := rules.NewRules(nil, rn.cfg)
-		idx, p := ev.Replay(r, rd.log)
+		idx, p := replayAuto(r, rd.log)
 		return idx, ev.PanicString(p), nil
 	}
 	res := decodeDoc(ce.NewCBEDecoder(rn.cfg), rd.doc, rn.cfg, true)
